@@ -291,4 +291,60 @@ theorem reprL_inj : ∀ (a b : List Desc), reprL a = reprL b → a = b
       rw [reprD_inj d e h.1, reprL_inj ds es h.2]
 end
 
+/-! ### `flat_member_ids` -/
+
+theorem size_le_of_mem (d : Desc) (ms : List Desc) (h : d ∈ ms) : d.size ≤ sizeL ms := by
+  induction ms with
+  | nil => cases h
+  | cons x xs ih =>
+    simp only [sizeL]
+    rcases List.mem_cons.mp h with rfl | h'
+    · omega
+    · have := ih h'; omega
+
+theorem forIn_flatIds (f : Descr Elem → List Int → Except Py.Exc (List Int)) (ms : List Desc)
+    (hf : ∀ d ∈ ms, ∀ ret, f (reprD d) ret = .ok (ret ++ d.flatIds.map Int.ofNat)) :
+    ∀ ret, Py.forIn (reprL ms) ret f = .ok (ret ++ (flatMemberIds ms).map Int.ofNat) := by
+  induction ms with
+  | nil => intro ret; simp [reprL, Py.forIn, flatMemberIds]
+  | cons d ds ih =>
+    intro ret
+    simp only [reprL, Py.forIn, hf d (by simp)]
+    rw [ih (fun x hx => hf x (List.mem_cons_of_mem _ hx))]
+    simp [flatMemberIds]
+
+open PyGen.descriptors in
+/-- the generated `flat_member_ids` on an object whose members are the object trees of `ms` -/
+theorem flat_eq : ∀ (fuel : Nat) (X : Descr Elem) (ms : List Desc), Descr.membersOf X = reprL ms → sizeL ms < fuel →
+    flat_member_ids eid fuel X = .ok ((flatMemberIds ms).map Int.ofNat) := by
+  intro fuel
+  induction fuel with
+  | zero => intro X ms _ h; omega
+  | succ fuel ih =>
+    intro X ms hX hsz
+    rw [flat_member_ids, hX]
+    refine (forIn_flatIds _ ms ?_ []).trans (by simp)
+    · intro d hd ret
+      have hds := size_le_of_mem d ms hd
+      cases d with
+      | elem e => simp [reprD, Descr.isSequence, Descr.isFixed, Descr.isDelayed, Descr.idWith, Desc.flatIds, eid, pure, Except.pure]
+      | undefElem i => simp [reprD, Descr.isSequence, Descr.isFixed, Descr.isDelayed, Descr.idWith, Descr.id, Desc.flatIds, pure, Except.pure]
+      | undefSeq i => simp [reprD, Descr.isSequence, Descr.isFixed, Descr.isDelayed, Descr.idWith, Descr.id, Desc.flatIds, pure, Except.pure]
+      | op i => simp [reprD, Descr.isSequence, Descr.isFixed, Descr.isDelayed, Descr.idWith, Descr.id, Desc.flatIds, pure, Except.pure]
+      | seq i ms' =>
+        have h' : sizeL ms' < fuel := by simp only [Desc.size] at hds; omega
+        simp [reprD, Descr.isSequence, Desc.flatIds, bind, Except.bind, pure, Except.pure,
+          ih (.seq (i : Int) (reprL ms')) ms' rfl h']
+      | fixedRep i ms' =>
+        have h' : sizeL ms' < fuel := by simp only [Desc.size] at hds; omega
+        simp [reprD, Descr.isSequence, Descr.isFixed, Descr.idWith, Descr.id, Desc.flatIds, bind, Except.bind, pure,
+          Except.pure, ih (.fixedRep (i : Int) (reprL ms')) ms' rfl h']
+      | delayedRep i f ms' =>
+        have h' : sizeL ms' < fuel := by simp only [Desc.size] at hds; omega
+        have hid := idWith_repr f
+        simp [reprD, Descr.isSequence, Descr.isFixed, Descr.isDelayed, Descr.idWith, Descr.id, Descr.factorId,
+          Desc.flatIds, bind, Except.bind, pure, Except.pure,
+          ih (.delayedRep (i : Int) (some (reprD f)) (reprL ms')) ms' rfl h']
+        simpa [Descr.idWith, Descr.id] using hid
+
 end Bufr.BuildSrc
